@@ -17,21 +17,29 @@ PROP = {'streams': [('c12', 12, 1200)],
               'toDoc_comments_partial',
               'toDocFixed_comments',
               'toDoc_safe',
+              'policy_tokens',
+              'policy_comments',
+              'policy_safe',
+              'policies_tokens',
+              'policies_comments',
               'pipeline_correct'],
- 'assumptions': ['theorems cover the abstract layout algebra and the expression-CST core with resolved tokens; the `pretty` crate, the span lookups '
-                 'of utils.rs, Policy/VariableDef/Cond/Annotation docs, remove_empty_lines and the string-level re-lexing of outputs are covered by '
-                 'the differential/property run only',
+ 'assumptions': ['theorems cover the abstract layout algebra, the expression-CST core and the policy level (Annotation/VariableDef/Cond/Policy docs, '
+                 'joining of policies, end-of-file comments) with resolved tokens; the `pretty` crate, the span lookups of utils.rs, '
+                 'remove_empty_lines and the string-level re-lexing of outputs are covered by the differential/property run only',
                  'comment identity = trimmed text of the comment line']}
 
 TEXT = ('Lean theorems over an abstract model of the formatter: a Wadler-style document algebra whose renderer is proved to insert only whitespace for '
  'EVERY flat/break decision (render_tokens) and never to let a `//` comment swallow a token when comments are followed by hardlines '
  "(render_comment_safe); the mirror of doc.rs' add_comment rule and of its Doc impls for the expression-CST core, proved to emit exactly the source "
  'tokens and comments in order except trailing commas, which are dropped with their comments (toDoc_tokens_partial, toDoc_comments_partial; the loss '
- 'is exhibited by lost_comment_example and removed by toDocFixed_comments); an abstract pipeline theorem (pipeline_correct): atom-preserving + '
+ 'is exhibited by lost_comment_example and removed by toDocFixed_comments); the policy level of doc.rs (annotations, effect, scope with '
+ 'both layouts and its trailing comma, when/unless clauses, joining of policies, end-of-file comments): every layout of a policy / policy set, for '
+ 'every chooser, width and indent, carries exactly the source tokens and comments in order minus trailing `,` tokens, so every comment survives '
+ '(policy_tokens, policy_comments, policies_tokens, policies_comments) and no token is swallowed by a comment (policy_safe); an abstract pipeline theorem (pipeline_correct): atom-preserving + '
  'output a function of (tokens, config) on comment-free text => same parse, comments preserved, idempotent sans comments, re-format preserves both. '
  'The statement itself is evaluated on the real formatter by a property-directed run: a comment at each token boundary in turn, width/indent grid, '
  "idempotence, re-formatting; the formatter's lexer/comment attachment is diffed against its Lean mirror.",
- 'the theorems cover the abstract layout algebra + the expression-CST core (resolved tokens) only; the rest of doc.rs '
- '(Policy/scope/annotations/conditions), the span lookups of utils.rs, remove_empty_lines, the `pretty` crate and string-level re-lexing are covered '
- "by the differential/property run only (sampled); known findings C12-F1..F4 (comments on trailing commas / on the scope's `)` after a trailing "
+ 'the theorems cover the abstract layout algebra + the expression-CST core + the policy level (resolved tokens); the span lookups of '
+ 'utils.rs, remove_empty_lines, the `pretty` crate and string-level re-lexing are covered '
+ "by the differential/property run only (sampled); no differential op for policy-level documents; known findings C12-F1..F4 (comments on trailing commas / on the scope's `)` after a trailing "
  'comma are dropped) are listed in known_findings.jsonl')
